@@ -223,6 +223,46 @@ pub fn lock(net: &Net) -> MutexGuard<'_, NetInner> {
     net.lock().unwrap_or_else(|e| e.into_inner())
 }
 
+// ---------------------------------------------------------------------------------------------
+// spin detector: a call that busy-loops inside one `poll` never returns to the scheduler, so the
+// quiescence oracle cannot see it. Every poll-style transport call ticks a per-thread counter that
+// the scheduler resets before each task poll (and the runner before each case); past the limit
+// the transport panics out of the loop and leaves a note the runner turns into a violation.
+
+pub const SPIN_LIMIT: u64 = 3_000_000;
+
+thread_local! {
+    static SPIN_OPS: std::cell::Cell<u64> = const { std::cell::Cell::new(0) };
+    static SPIN_HIT: std::cell::RefCell<Option<String>> = const { std::cell::RefCell::new(None) };
+}
+
+pub fn spin_reset() {
+    SPIN_OPS.with(|c| c.set(0));
+}
+
+pub fn spin_take() -> Option<String> {
+    SPIN_HIT.with(|h| h.borrow_mut().take())
+}
+
+fn spin_tick(op: &'static str, side: usize, id: Option<u64>) {
+    let n = SPIN_OPS.with(|c| {
+        c.set(c.get() + 1);
+        c.get()
+    });
+    if n > SPIN_LIMIT {
+        spin_reset();
+        let who = if side == SERVER { "server" } else { "client" };
+        let d = format!("{} on the {} side{}", op, who, id.map(|i| format!(" (stream {})", i)).unwrap_or_default());
+        SPIN_HIT.with(|h| {
+            let mut h = h.borrow_mut();
+            if h.is_none() {
+                *h = Some(d.clone());
+            }
+        });
+        panic!("SIM-SPIN: more than {} transport calls without returning to the executor; last: {}", SPIN_LIMIT, d);
+    }
+}
+
 #[derive(Debug, Clone, Copy, PartialEq, Eq, Hash)]
 pub enum NetAction {
     Deliver { id: u64, sender: usize },
@@ -668,6 +708,7 @@ fn poll_open<B: Buf>(
     bidi: bool,
     cx: &mut Context<'_>,
 ) -> Poll<Result<u64, StreamErrorIncoming>> {
+    spin_tick("poll_open", side, None);
     let mut n = lock(net);
     if let Some(e) = n.conn_error_for(side) {
         return Poll::Ready(Err(conn_err(e)));
@@ -733,6 +774,7 @@ impl<B: Buf> quic::Connection<B> for SimConn<B> {
     type OpenStreams = SimOpener<B>;
 
     fn poll_accept_recv(&mut self, cx: &mut Context<'_>) -> Poll<Result<Self::RecvStream, ConnectionErrorIncoming>> {
+        spin_tick("poll_accept_recv", self.side, None);
         let mut n = lock(&self.net);
         if let Some(e) = n.conn_error_for(self.side) {
             return Poll::Ready(Err(e));
@@ -751,6 +793,7 @@ impl<B: Buf> quic::Connection<B> for SimConn<B> {
     }
 
     fn poll_accept_bidi(&mut self, cx: &mut Context<'_>) -> Poll<Result<Self::BidiStream, ConnectionErrorIncoming>> {
+        spin_tick("poll_accept_bidi", self.side, None);
         let mut n = lock(&self.net);
         if let Some(e) = n.conn_error_for(self.side) {
             return Poll::Ready(Err(e));
@@ -858,6 +901,7 @@ impl<B: Buf> SimSend<B> {
 
 impl<B: Buf> quic::SendStream<B> for SimSend<B> {
     fn poll_ready(&mut self, cx: &mut Context<'_>) -> Poll<Result<(), StreamErrorIncoming>> {
+        spin_tick("poll_ready", self.side, Some(self.id));
         self.flush(cx)
     }
 
@@ -881,6 +925,7 @@ impl<B: Buf> quic::SendStream<B> for SimSend<B> {
     }
 
     fn poll_finish(&mut self, cx: &mut Context<'_>) -> Poll<Result<(), StreamErrorIncoming>> {
+        spin_tick("poll_finish", self.side, Some(self.id));
         std::task::ready!(self.flush(cx))?;
         let mut n = lock(&self.net);
         n.time += 1;
@@ -910,6 +955,7 @@ impl<B: Buf> quic::SendStream<B> for SimSend<B> {
 
 impl<B: Buf> quic::SendStreamUnframed<B> for SimSend<B> {
     fn poll_send<D: Buf>(&mut self, cx: &mut Context<'_>, buf: &mut D) -> Poll<Result<usize, StreamErrorIncoming>> {
+        spin_tick("poll_send", self.side, Some(self.id));
         if self.writing.is_some() {
             // finish the framed write first
             std::task::ready!(self.flush(cx))?;
@@ -982,6 +1028,7 @@ impl quic::RecvStream for SimRecv {
     type Buf = Bytes;
 
     fn poll_data(&mut self, cx: &mut Context<'_>) -> Poll<Result<Option<Self::Buf>, StreamErrorIncoming>> {
+        spin_tick("poll_data", self.side, Some(self.id));
         let mut guard = lock(&self.net);
         let n = &mut *guard;
         if let Some(e) = n.conn_error_for(self.side) {
@@ -1147,6 +1194,7 @@ impl<B: Buf> h3_datagram::quic_traits::SendDatagram<B> for SimDgramSend {
 impl h3_datagram::quic_traits::RecvDatagram for SimDgramRecv {
     type Buffer = Bytes;
     fn poll_incoming_datagram(&mut self, cx: &mut Context<'_>) -> Poll<Result<Self::Buffer, ConnectionErrorIncoming>> {
+        spin_tick("poll_incoming_datagram", self.side, None);
         let mut n = lock(&self.net);
         if let Some(d) = n.sides[self.side].dgram_q.pop_front() {
             return Poll::Ready(Ok(d));
